@@ -15,6 +15,41 @@ var idxAssume = []string{
 }
 
 var metas = map[string]PropMeta{
+	"C01": {
+		Explanation: "PIPE-CLONE, LOST-UPDATE (rewriters), ENC-MAPKEY (rewriters and flatten.go), PIPE-REBASE. Each is a necessary condition: violating it changes the meaning of some bundle in W.",
+		NotDecided:  []string{"bisimulation of the $ref-unfolded documents", "that a re-pointed $ref designates the same schema", "normalize.RebaseRef's path arithmetic", "OAIGen de-duplication", "that paths/operations/parameters are otherwise untouched"},
+		Assumptions: []string{"string encodings: N raw name, T pointer-escaped token, P joined tokens, K '#'+P, U URL-escaped K; signatures of jsonpointer.Escape/Unescape, path.Join/Base/Dir, url.PathUnescape, Ref.String as read from their sources; names contain no '%'"},
+	},
+	"C02": {
+		Explanation: "PIPE-ORDER on Flatten (phases identified by what they reach: spec.ExpandSpec, sortref.ReverseIndex, replace.UpdateRefWithSchema) and REF-CANONICAL on every $ref written into the root document.",
+		NotDecided:  []string{"spec.ExpandSpec removing every non-schema $ref", "reaching the import and pointer fixpoints", "absence of $refs the analyzer does not see (C11)"},
+		Assumptions: []string{"the single transient non-canonical write (stripOAIGenForRef re-pointing parents to the first parent) is followed by pointer naming, as its return value requests"},
+	},
+	"C03": {
+		Explanation: "PIPE-SAVE-NAME, PIPE-WHOWRITES-DEFS, GUARD-UNIQ, GUARD-COMPLEXMOVE, GUARD-COMPLEXDEF, PIPE-ORDER/inline, COV-METHODSET.",
+		NotDecided:  []string{"that every position is visited (C11/C12)", "the re-iteration fixpoint after de-duplication re-inlines a complex schema"},
+		Assumptions: []string{"strings.EqualFold is the case-insensitive comparison meant by the statement"},
+	},
+	"C04": {
+		Explanation: "PIPE-HOLDERS, SYNC-ENTRY, ENC-REFARG (known finding).",
+		NotDecided:  []string{"that Flatten returns nil on every bundle of W"},
+		Assumptions: []string{"the kinds of value jsonpointer.Get can return for an analyzer key are *Schema, Schema, *SchemaOrArray, *SchemaOrBool, and the containers of a by-value schema are Definitions, map[string]Schema, []Schema, *SchemaOrArray, SchemaProperties (read from go-openapi/spec)"},
+	},
+	"C06": {
+		Explanation: "ENC-MAPKEY in removeUnusedSinglePass, TERM-PROGRESS, PIPE-ORDER/clearShared and /removeUnused, PIPE-NOREFILL.",
+		NotDecided:  []string{"that the reference list is complete (C11)", "meaning preservation (C01)"},
+		Assumptions: []string{"names contain no '%' (url.PathUnescape is then the inverse of the escaping done by Ref.String)"},
+	},
+	"C07": {
+		Explanation: "ORD-LOOP over every unordered loop below Flatten and ORD-SINK over every use of an order-tainted slice or field.",
+		NotDecided:  []string{"three loops frozen as assumptions (see exempt obligations)", "that Less functions are total orders", "byte-identical serialisation"},
+		Assumptions: []string{"Go map iteration order is the only source of nondeterminism (single goroutine, no time or randomness below Flatten)", "distinct iterations of a loop over a map write distinct keys when the key is the loop variable"},
+	},
+	"C09": {
+		Explanation: "NIL-DEREF, TERM-REC, TERM-VISITED/COUNTER (fixpoint loops inventoried as exempt), ERR-PROP/ERR-DROP, COV-EXPANDOPTS, PANIC-UNREACH, ENC-MUSTREF (known finding).",
+		NotDecided:  []string{"termination of importReferences and stripPointersAndOAIGen", "index and slice bounds", "panics inside go-openapi/spec, jsonpointer, swag", "which load fails at run time"},
+		Assumptions: []string{"a call does not nil-out a field of a value it receives", "documents are finite trees"},
+	},
 	"C10": {
 		Explanation: "Typestate E/S/T (unchanged since entry / in sync / stale) propagated through every function below Flatten with summaries over success exits only (error exits are excluded by the dominating err != nil test). Events: stores into document storage and in-place external mutators (stale), the rebuild method on the Spec handed to Flatten (sync), reads of Spec's index fields or query methods on that Spec (need sync when nothing was mutated yet in the function). Fresh analyzers (New(opts.Swagger()), the partial analyzer of importNewRef) are other objects and change nothing.",
 		NotDecided:  []string{"that the caller's Spec was in sync when handed to Flatten (assumed)", "equality of answers is derived from 'the last event is a re-analysis identical to New'; the analyzer's own completeness is C11–C14"},
